@@ -49,7 +49,7 @@ class Env:
 BUILTIN_NAMES = {
     "len", "isinstance", "list", "tuple", "dict", "set", "int", "str", "bool", "float", "abs", "range", "enumerate",
     "zip", "getattr", "setattr", "hasattr", "any", "all", "min", "max", "sorted", "reversed", "print", "type",
-    "repr", "sum", "frozenset", "id", "callable", "iter", "next", "object",
+    "repr", "sum", "frozenset", "id", "callable", "iter", "next", "object", "open",
 }
 EXC_NAMES = set(BUILTIN_EXC_BASES) | {"Exception", "LookupError", "RuntimeError"}
 MUTATORS = {"append", "extend", "update", "pop", "insert", "remove", "clear", "setdefault", "sort"}
@@ -587,7 +587,15 @@ class Interp:
                 nm = a.asname or a.name.split(".")[0]
                 env.vars[nm] = ModRef(a.name if isinstance(s, ast.Import) else "%s.%s" % (s.module, a.name))
         elif isinstance(s, ast.With):
-            raise Unsupported("with statement")
+            # `with <opaque resource> as name:` - files only: the resource is an opaque value, entering / leaving it has no
+            # modelled effect (A-OS)
+            for item in s.items:
+                v = self.ev(item.context_expr, env)
+                if not isinstance(v, Opaque):
+                    raise Unsupported("with statement over %s" % type(v).__name__)
+                if item.optional_vars is not None:
+                    self.assign(item.optional_vars, v, env)
+            self.exec_block(s.body, env)
         elif isinstance(s, ast.Global):
             raise Unsupported("global statement")
         else:
@@ -1389,7 +1397,7 @@ class Interp:
             if real is not None and hasattr(getattr(real, o.name, None), name):
                 return self.import_const(getattr(getattr(real, o.name), name))
             raise pyraise("AttributeError", name)
-        if isinstance(o, (str, SStr, list, dict, tuple, set, OSeq, PProd, SplitView)):
+        if isinstance(o, (str, SStr, list, dict, tuple, set, OSeq, PProd, SplitView)) or (isinstance(o, Opaque) and o.fn == "open"):
             return Method(o, name)
         if isinstance(o, PyRaise):
             if name == "args":
@@ -1497,6 +1505,12 @@ class Interp:
         if m is None:
             raise Unsupported("builtin %s" % n)
         return m(*args, **kwargs)
+
+    def b_open(self, *a, **k):
+        """open(path, mode, encoding=...): an opaque file object that is a function of its arguments (A-OS)"""
+        if len(a) > 1 and isinstance(a[1], str) and any(c in a[1] for c in "wax+"):
+            raise Unsupported("open for writing")
+        return Opaque("open", list(a) + [k.get(n) for n in sorted(k)])
 
     def b_len(self, a):
         if isinstance(a, MDict):
@@ -1817,6 +1831,8 @@ class Interp:
                     raise Unsupported("set.add symbolic")
                 o.add(args[0])
                 return None
+        if isinstance(o, Opaque) and o.fn == "open" and m == "read" and not args:
+            return Opaque("file-content", list(o.args))
         if isinstance(o, SplitView):
             raise Unsupported("method %s of split result" % m)
         if isinstance(o, (Sym, Obj, OSeq, PProd)):
